@@ -697,7 +697,11 @@ impl World {
                         let mut g = sim.lock().unwrap();
                         let a = g.connect_attempts;
                         g.connect_attempts += 1;
-                        (g.connect_plan.get(a).copied().unwrap_or(g.connect_default), a)
+                        // a client that reconnects thousands of times without the clock advancing is spinning: from here on
+                        // connection attempts never complete, so virtual time runs into the caller's watchdog and the call is
+                        // judged "does not return" instead of the harness spinning along in real time
+                        let b = if a > 5_000 { ConnectBehaviour::Stall } else { g.connect_plan.get(a).copied().unwrap_or(g.connect_default) };
+                        (b, a)
                     };
                     clog.lock().unwrap().push(CEv::ConnectAttempt { conn: attempt, t: tokio::time::Instant::now().duration_since(t0).as_secs_f64() });
                     match behaviour {
